@@ -87,7 +87,8 @@ def observe_component(sc, st, rec=None, post_cmds=(), filter_text=None, break_te
             steps.append(('close', s[1]))
     res = rig.run_component(steps, filter_text=filter_text, break_text=break_text,
                             show_unprocessed=not sc['config'].get('suppress', False), color=color, rec=rec,
-                            listener_factory=lambda cm: tr.make(), post_cmds=post_cmds)
+                            listener_factory=lambda cm: tr.make(), post_cmds=post_cmds,
+                            nonewline=sc['config'].get('nonewline', sc['seed'] % 4 == 0))
     return res, tr
 
 
